@@ -62,6 +62,8 @@ ASSUMPTIONS = [
 ]
 TRUSTED = ["Gen.C04.gauss/dmds/dmdxo/dmdyo/dmdsx/dmdsy/dmdtheta regenerated from fitting.elliptical_gaussian and "
            "fitting.jacobian by py2lean.py (real mode, + np.pi extension in translator/targets/C04.py)",
+           "Gen.C04.lmjOp/lmjLen/lmjSrc: the step pipeline of fitting.lmfit_jacobian, sliced by translator/targets/C04.py "
+           "(_lmj_steps) and run by the fixed glue Model.runOps (driver op lmjac executes exactly this)",
            "Mathlib: HasDerivAt calculus for exp/sin/cos, field_simp, ring; Matrix.transpose_mul"]
 PARTIAL = []
 
@@ -358,9 +360,11 @@ def observed_assignment(fitting, m, params):
         try:
             fitting.covar_errors(p, m.data, errs=errs, B=m.B, C=(m.C if m.use_c else None))
         except Exception as e:     # covar_errors must not raise on a valid fitted model
+            m.raw_stderr = [None] * (6 * len(m.comps))
             return [None] * (6 * len(m.comps)), onesigma, f'raised {type(e).__name__}: {e}'
     obs = []
     status = 'ok'
+    m.raw_stderr = [p[f'c{i}_{name}'].stderr for i in range(len(m.comps)) for name in PARS]
     for i in range(len(m.comps)):
         for name in PARS:
             s = p[f'c{i}_{name}'].stderr
@@ -403,7 +407,7 @@ def run_models(ctx, models, tag='random', truth=False):
         lines.append(f"{pre}sum {n} " + " ".join(enc_comps(m.comps) + [f2h(x[k]), f2h(y[k])]))
         lines.append("assign " + " ".join(map(str, m.masks)))
         # the C branch of covar_errors uses the Jacobian without B
-        lines.append(f"{pre}lmjac {n} {m.npix} " + " ".join(ct + px + m.errs_tokens() + ['bnone']) if m.use_c else "rank 0")
+        lines.append(f"{pre}lmjac {n} {m.npix} " + " ".join(ct + px + m.errs_tokens() + ['bnone']))
         try:
             with np.errstate(all='ignore'):
                 np.asarray(fitting.jacobian(p, x, y), dtype=float)
@@ -425,6 +429,7 @@ def run_models(ctx, models, tag='random', truth=False):
                 rec['lmjac'] = None
             rec['sum'] = float(fitting.ntwodgaussian_lmfit(p)(x[k:k + 1], y[k:k + 1])[0])
             rec['obs'], rec['onesigma'], rec['status'] = observed_assignment(fitting, m, p)
+            rec['raw'] = list(m.raw_stderr)
         meta.append(rec)
     outs = ctx.driver.batch(lines)
     # the Spec on the observed assignments, second batch
@@ -512,14 +517,27 @@ def run_models(ctx, models, tag='random', truth=False):
             elif rec['obs'] != want:
                 ctx.fail('corr', m.case('stderr'), f"observed assignment {rec['obs']} but the model {want}",
                          dict(site='fitting.covar_errors', what='stderr-assignment-model'))
-            elif rec['lmjac'] is not None and rec['onesigma'] is not None:
+        # value level (also when the written errors could not be identified among the entries of a replicated
+        # onesigma, status 'ambiguous': then the values themselves are compared)
+        assignment_fine = (rec['status'] == 'ok' and sp == 'ok' and rec['obs'] == want) or rec['status'] == 'ambiguous'
+        if assignment_fine:
+            if rec['lmjac'] is not None:
                 # value level: Fisher matrix from the model's Jacobian
-                hdr, ml = floats(outs[s + 4] if m.use_c else outs[s + 1], 2)
+                # assembled as the REGENERATED words of covar_errors say (driver op `fisherwords`; theorem
+                # covar_errors_fisher): which Jacobian each branch asks for (1 = errs only, 2 = errs and B) and the
+                # product word over 1 = J^T, 2 = J, 3 = inv(C)
+                # (truth=True: the proved assembly, not the regenerated one)
+                fw = dict(jacC=1, jacB=2, sigma=1, C=[1, 3, 2], B=[1, 2]) if truth else fisher_words(ctx)
+                branch = 'C' if (m.use_c and m.C is not None) else 'B'
+                hdr, ml = floats(outs[s + 4] if fw['jac' + branch] == 1 else outs[s + 1], 2)
                 Jm = ml.reshape(hdr)
                 with np.errstate(all='ignore'):
                     try:
                         import scipy.linalg
-                        F = Jm.T.dot(scipy.linalg.inv(m.C)).dot(Jm) if (m.use_c and m.C is not None) else Jm.T.dot(Jm)
+                        F = None
+                        for letter in fw[branch]:
+                            X = {1: Jm.T, 2: Jm}[letter] if letter in (1, 2) else scipy.linalg.inv(m.C)
+                            F = X if F is None else F.dot(X)
                         cond = np.linalg.cond(F)
                         sig1 = np.sqrt(np.diag(scipy.linalg.inv(F)))
                     except Exception:
@@ -531,7 +549,8 @@ def run_models(ctx, models, tag='random', truth=False):
                         if w is None:
                             continue
                         i, q = divmod(kk, 6)
-                        got = mk_stderr(m, i, q, rec)
+                        got = rec['raw'][kk]
+                        got = float('nan') if got is None else float(got)
                         if not abs(got - sig1[w]) <= tol * max(abs(got), abs(sig1[w])):
                             ctx.fail(kind_fail, m.case('stderr-value', key=[i, PARS[q]]),
                                      f"c{i}_{PARS[q]}.stderr = {got!r}; sqrt of its own diagonal entry of the inverse "
@@ -546,6 +565,18 @@ def run_models(ctx, models, tag='random', truth=False):
         ctx.case(m.case(tag), nontrivial_key=nt, sample_every=53)
         for v in m.masks:
             ctx.extra.setdefault('_masks_seen', set()).add(v)
+
+
+def fisher_words(ctx):
+    """the regenerated Fisher assembly, from the driver (cached per run)"""
+    fw = ctx.extra.get('_fisher_words')
+    if fw is None:
+        w = ctx.driver.batch(['fisherwords'])[0].split()
+        ic, ib = w.index('C'), w.index('B')
+        fw = dict(jacC=int(w[0]), jacB=int(w[1]), sigma=int(w[2]), C=[int(t) for t in w[ic + 1:ib]],
+                  B=[int(t) for t in w[ib + 1:]])
+        ctx.extra['_fisher_words'] = fw
+    return fw
 
 
 def mk_stderr(m, i, q, rec):
@@ -895,11 +926,15 @@ def run(ctx):
     debug_slice(ctx, sample)
     index_sweep(ctx, sweep_lists(ctx))
     bmatrix_contract(ctx)
+    ctx.extra['lmfit_jacobian_pipeline'] = ctx.driver.batch(['pipeline'])[0] + '   (src len op0 op1 ...; 1 = /errs, 2 = .dot(B), 3 = transpose)'
     degenerate_probes(ctx)
     hessian_observation(ctx)
     optimiser_pairing_probe(ctx)
     # implementation vs the property directly (cheap; independent of which obligation broke)
     leaf_spec_probe(ctx, 60 if ctx.quick else 600)
+    fw = ctx.extra.pop('_fisher_words', None)
+    ctx.extra['covar_errors_assembly'] = fw or fisher_words(ctx)
+    ctx.extra.pop('_fisher_words', None)
     seen = ctx.extra.pop('_masks_seen', set())
     ctx.extra['vary_masks_covered'] = f"{len(seen)}/64"
 
